@@ -472,6 +472,10 @@ class PowerSyntax(Family):
              ('0', 0.0), ('2^1', 2.0), ('-1^3', -1.0), ('-2^0', -1.0), ('(1+i)', 1 + 1j), ('[1,2]', [1.0, 2.0]),
              ('(0*2)', 0.0), ('3', 3.0), ('-3', -3.0), ('(1/2)', 0.5), ('(4/2)', 2.0), ('(-4/2)', -2.0), ('1.5', 1.5),
              ('((1-0.9)*10)', (1 - 0.9) * 10), ('(0.3/0.1)', 0.3 / 0.1), ('1.999999999999', 1.999999999999)]
+    # exponents written as ONE-ELEMENT arrays: the library may refuse them as array exponents or read them as the number they
+    # hold (both accepted) -- but whichever it does, a disabled negative power must stay refused
+    ONE_ELEMENT = [('[-1]', -1.0), ('-[1]', -1.0), ('(-[2])', -2.0), ('[[-1]]', -1.0), ('[2]', 2.0), ('[-0.5]', -0.5)]
+    TEXTS = TEXTS + [(t, ('one-element', v)) for t, v in ONE_ELEMENT]
     BASES = [spec_arr((2,), 'ra'), spec_arr((2, 3), 'ra'), spec_arr((2, 2), 'ra'), spec_arr((2, 2), 'ca'),
              spec_arr((2, 2), 'sg'), spec_arr((3, 3), 'rb'), spec_arr((3, 3), 'sg'), spec_arr((2, 2, 2), 'ra'),
              spec_arr((1, 2), 'ra'), spec_arr((4, 4), 'rf'),
@@ -498,6 +502,9 @@ class PowerSyntax(Family):
         a = decode(b)
         text, k = self.TEXTS[i]
         negpow = flag == 'on'
+        one_element = isinstance(k, tuple)
+        if one_element:
+            k = k[1]
         exp = expected_of(lambda: R.power(a, k, negpow))
         formula = '%s^%s' % (lit(a) if mode == 'lit' else 'A', text)
         variables = {'i': 1j, 'A': to_lib(a)}
@@ -506,7 +513,12 @@ class PowerSyntax(Family):
         else:
             with Lib.MathArray.enable_negative_powers(False):
                 got = attempt(lambda: Lib.evaluator(formula, variables, {}, {})[0])
-        res = judge(exp, got, site_of('^', a, k) + ('' if negpow else ':disabled'), True)
+        res = judge(exp, got, site_of('^', a, k) + (':one-element-exponent' if one_element else '') + ('' if negpow else ':disabled'), True)
+        if one_element and res.violation is not None:
+            # read as an array exponent it is refused
+            alt = judge(expected_of(lambda: R.power(a, [k], negpow)), got, site_of('^', a, k), True)
+            if alt.violation is None:
+                res = alt
         if not negpow and res.violation is None:
             res.violation = check_restored()
         return res
